@@ -145,8 +145,7 @@ End ParseDate.
 
 (* ------------------------------------------------------------------ serialize_date *)
 Section Now.
-  (* _now(): naive local wall-clock fields, and the POSIX time of the same instant *)
-  Variable now_local : fields.
+  (* the POSIX time of the instant _now() (a naive local wall-clock reading) denotes *)
   Variable now_utc : Z.
 
   (* the POSIX second a date value denotes (naive datetimes are UTC by convention) *)
@@ -174,15 +173,13 @@ Section Now.
 
   (* ---------------------------------------------------------------- delta seconds *)
   (* timedelta(seconds=v): OverflowError beyond 999999999 days; datetime + timedelta: OverflowError outside
-     years 1..9999.  parse_date_delta WITHOUT the try/except of fixes/C12-05 *)
+     years 1..9999.  As repaired by fixes/C12-16 the result is _now().astimezone(UTC) + delta: an aware UTC
+     datetime like the one parse_date gives.  parse_date_delta WITHOUT the try/except of fixes/C12-05 *)
   Definition max_delta_days : Z := 999999999.
   Definition now_plus (secs : Z) : res fields :=
     if (Z.abs (secs / 86400) >? max_delta_days) then Raise OverflowError
-    else match timegm now_local with
-         | Raise e => Raise e
-         | Ok n => let t := n + secs in
-                   if (ts_min <=? t) && (t <=? ts_max) then Ok (fields_of_ts t) else Raise OverflowError
-         end.
+    else let t := now_utc + secs in
+         if (ts_min <=? t) && (t <=? ts_max) then Ok (fields_of_ts t) else Raise OverflowError.
 
   Definition parse_date_delta_unguarded pd mk_local (v : option str) : res val :=
     match v with
@@ -191,7 +188,7 @@ Section Now.
         match py_int s with
         | None => parse_date pd mk_local v
         | Some z => match now_plus z with
-                    | Ok f => Ok (dt_val f None)
+                    | Ok f => Ok (dt_val f (Some 0))
                     | Raise e => Raise e
                     end
         end
